@@ -224,6 +224,15 @@ def body(ctx):
     ctx.cov["model_runs"].append(dict(cfg="K_ShufflePatAsShipped.cfg (regression of the model: must be violated)", ok=not r["ok"], distinct=r["distinct"], generated=r["generated"], wall_s=round(r["wall"], 1)))
     if r["ok"]:
         raise vf.InfraError("K_ShufflePat with the shipped detectors no longer exhibits shuffle<0,4,2,6> -> zip_lo: the model lost its teeth")
+    # second wave of kernel refinement: the per-ISA swizzle decompositions (avx in-lane permute + blend, sse2 pshuflw/pshufhw,
+    # ssse3 byte controls, avx2 64-bit through vpermd, avx512f folded 16-bit masks) against Perm!Swizzle
+    ctx.model("K_Swizzle.tla", ctx.q("K_Swizzle.cfg", "K_SwizzleFull.cfg"), timeout=2400)
+    if not ctx.quick:
+        ctx.model("K_Swizzle.tla", "K_Swizzle.cfg", timeout=600)
+    r = vf.tlc_model("K_Swizzle.tla", "K_SwizzleAsShipped.cfg", timeout=600)
+    ctx.cov["model_runs"].append(dict(cfg="K_SwizzleAsShipped.cfg (regression of the model: must be violated)", ok=not r["ok"], distinct=r["distinct"], generated=r["generated"], wall_s=round(r["wall"], 1)))
+    if r["ok"]:
+        raise vf.InfraError("K_Swizzle with the sse2 16-bit kernel as shipped before 57617a1 no longer fails: the model lost its teeth")
     acc = load_accept()
     text, cases = generate(ctx, acc)
     gh = hashlib.sha256(text.encode()).hexdigest()[:16]
